@@ -43,6 +43,7 @@ fn mk(property: &str, mode: &str, label: &str, cfg: Cfg, prefix: Vec<Op>, alphab
         vacuum_end: false,
         reopen_cfg: None,
         oom_tolerant: false,
+        vacuum_with_sessions: false,
     };
     let p = CrashParams { seq, mode: mode.into(), nested, triggers: ids.iter().filter(|s| s.starts_with("KT-")).cloned().collect() };
     Search {
